@@ -378,5 +378,8 @@ PROPS["C10"]["explanation"] += " (DIMDIRTY) renaming a dimension or making it sh
 PROPS["C03"]["rules"] = PROPS["C03"]["rules"] + [rules_sd.rule_presize_condition]
 PROPS["C03"]["explanation"] += " (SETLEN) the test that decides whether a data element must be pre-sized for no-fill writes looks at the file (no data element yet), not only at the per-session `created` flag."
 
+PROPS["C03"]["rules"] = PROPS["C03"]["rules"] + [rules_sd.rule_presize_consumed]
+PROPS["C03"]["explanation"] += " (SETLENUSE) a pending pre-sizing request is honoured before every seek or write on the data element, also when an earlier read had already opened the element."
+
 NOT_APPLICABLE = {}
 
